@@ -61,6 +61,12 @@ type c16Case struct {
 	// Sync: the transport buffers nothing (a Write returns when the peer has
 	// read it, as on net.Pipe)
 	Sync bool `json:"sync,omitempty"`
+	// DupRcpt: the last recipient has the same address as the first (a list
+	// put together from To / Cc / Bcc names someone twice): the list given is
+	// the list delivered to. ViaSendMail (SMTP, every recipient accepted):
+	// the whole transaction through Client.SendMail.
+	DupRcpt     bool `json:"dup_rcpt,omitempty"`
+	ViaSendMail bool `json:"via_sendmail,omitempty"`
 }
 
 // c16Normalise is the reference: bare LF becomes CRLF and a final CRLF is
@@ -149,12 +155,33 @@ func c16Run(c c16Case) Verdict {
 			priorErr = pw.Close()
 			priorWriter = pw
 		}
+		rcptAddr := func(i int) string {
+			if c.DupRcpt && i > 0 && i == len(c.Rcpts)-1 {
+				i = 0
+			}
+			return fmt.Sprintf("%s%d@x", rcptLocal, i)
+		}
+		allAccepted := true
+		for _, acc := range c.Rcpts {
+			allAccepted = allAccepted && acc
+		}
+		if c.ViaSendMail && !c.LMTP && allAccepted && c.SlowMs == 0 && !c.StaleClose {
+			for i := range c.Rcpts {
+				wantRcpts = append(wantRcpts, rcptAddr(i))
+			}
+			closeErr = cl.SendMail(sender, wantRcpts, bytes.NewReader(c.Body))
+			w.WaitQuiet()
+			consumed1 = w.S.Consumed()
+			c.CloseTwice = false
+			noopErr = cl.Noop()
+			return
+		}
 		if err := cl.Mail(sender, nil); err != nil {
 			envErr = fmt.Errorf("Mail(%q): %w", sender, err)
 			return
 		}
 		for i, acc := range c.Rcpts {
-			to := fmt.Sprintf("%s%d@x", rcptLocal, i)
+			to := rcptAddr(i)
 			err := cl.Rcpt(to, nil)
 			if acc {
 				wantRcpts = append(wantRcpts, to)
@@ -461,6 +488,8 @@ func c16Gen(t *rapid.T) c16Case {
 	for i := 0; i < nr; i++ {
 		c.Rcpts = append(c.Rcpts, i == 0 || rapid.IntRange(0, 3).Draw(t, "acc") != 0)
 	}
+	c.DupRcpt = rapid.IntRange(0, 3).Draw(t, "dup_rcpt") == 0
+	c.ViaSendMail = rapid.IntRange(0, 3).Draw(t, "via_sendmail") == 0
 	if rapid.IntRange(0, 3).Draw(t, "prior") == 0 {
 		c.Prior, c.PriorVerdict, c.PriorRcpts = true, c16GenVerdict(t), rapid.IntRange(1, 3).Draw(t, "prior_rcpts")
 		c.PriorPlainData = rapid.Bool().Draw(t, "prior_plain")
